@@ -39,6 +39,7 @@ type faCloud struct {
 	shown map[string]bool     // mac -> metadata lists what the cloud has
 	fail  map[string]bool     // eni -> the next assign is refused
 	types map[string]string   // eni -> S | T | R as DescribeNetworkInterfaces reports it (fa.attached)
+	meta  map[string]map[string]string // mac -> leaf -> what the metadata server answers (nc.meta)
 	next  int
 }
 
@@ -77,6 +78,16 @@ func faStartMetadata() {
 		}
 		mac, leaf := p[len(p)-2], p[len(p)-1]
 		faState.mu.Lock()
+		if m, ok := faState.meta[mac]; ok {
+			v, has := m[leaf]
+			faState.mu.Unlock()
+			if !has {
+				w.WriteHeader(404)
+				return
+			}
+			_, _ = w.Write([]byte(v))
+			return
+		}
 		var out []string
 		if faState.shown[mac] {
 			for _, ip := range faState.ips[mac] {
